@@ -7,7 +7,8 @@ Entry point for harness/props/c20.py:
     summary = stats_report.report_check(ctx)        # ctx: the C20 Ctx
 
 `report_check` builds programs of the documented workflow with `scale-stats`
-run at every stage (info only / full resolution written / pyramid computed /
+run at every stage (info only / full resolution written from a volume or from
+a slice stack / pyramid computed /
 all-in-one / converted destination; unsharded and sharded; several data types,
 channel counts and sizes on both sides of the "B" / "kiB", one-decimal /
 no-decimal formatting boundaries), runs them as REAL sub-processes
@@ -104,6 +105,14 @@ def _programs(ctx):
         steps = [C("GenInfo", "A", sh=sh), C("GenScales", "A", src="A", type=typ, enc=enc, max=mx),
                  C("Stats", "A"), C("Vol", "A"), C("Stats", "A"), C("Compute", "A", m="auto"),
                  C("Stats", "A")]
+        if k % 3 == 2 and vol["dtype"] in ("uint8", "uint16"):
+            # the same workflow from a slice stack: hand-written full-resolution info,
+            # slices-to-precomputed (sharding by editing the info)
+            code = ["RPI", "LIP", "ASR", "IAL"][(k // 3) % 4]
+            steps = ([C("HandInfo", "A", sh="nosh"), C("GenScales", "A", src="A", type=typ, enc=enc, max=mx)]
+                     + ([C("Edit", "A", sh="s110")] if sharded else [])
+                     + [C("Stats", "A"), C("Slices", "A", code=code), C("Stats", "A"),
+                        C("Compute", "A", m="auto"), C("Stats", "A")])
         if k % 3 == 0:
             tail = [C("AllInOne", "B", type=typ, enc=enc, m="auto"), C("Stats", "B")]
         elif k % 3 == 1:
@@ -115,7 +124,8 @@ def _programs(ctx):
         progs.append({"vol": vol, "cmds": steps + tail,
                       "lay": {"A": rng.choice(list(pd.LAYOUTS)), "B": rng.choice(list(pd.LAYOUTS))},
                       "explicit": rng.random() < 0.5, "seed": rng.randrange(1 << 30),
-                      "docs_shflag": rng.random() < 0.5, "shard_enc": rng.choice(["gzip", "raw"])})
+                      "docs_shflag": rng.random() < 0.5, "shard_enc": rng.choice(["gzip", "raw"]),
+                      "slice_format": ["png", "tiff"][k % 2]})
     return progs
 
 
